@@ -11,7 +11,17 @@ def mutate(rng, body, boundary):
     """Grammar mutations of a well-formed multipart body."""
     delim = b'--' + boundary
     k = rng.choice(['trunc', 'trunc', 'dropdelim', 'dupdelim', 'nocolon', 'emptyval', 'noname', 'badutf8hdr', 'badutf8val', 'junkstart',
-                    'nofinal', 'lfonly', 'extracr', 'randbyte', 'delimjunk', 'noblank', 'lowercd', 'unclosedquote', 'longopt', 'partctype', 'none'])
+                    'nofinal', 'lfonly', 'extracr', 'randbyte', 'delimjunk', 'noblank', 'lowercd', 'unclosedquote', 'longopt', 'partctype', 'hdrctl',
+                    'hdrctl', 'none'])
+    if k == 'hdrctl':
+        # a control octet (NUL and friends) inside the value of a header line of a part -- file parts included
+        parts = [i for i in range(len(body)) if body.startswith(b'\r\n\r\n', i)]
+        if not parts:
+            return body + b'\x00', k
+        i = rng.choice(parts)
+        octet = bytes([rng.choice([0, 0, 0, 1, 8, 11, 12, 127, 27])])
+        line = rng.choice([b'\r\nContent-Type: image' + octet + b'/png', b'\r\nX-Note: a' + octet + b'b', b'\r\nContent-Transfer-Encoding: ' + octet, octet])
+        return body[:i] + line + body[i:], k
     if k == 'none':
         return body, k
     if k == 'unclosedquote':
